@@ -2,6 +2,8 @@
 from props.common import run_with
 from props.parsecommon import parse_step_obs
 from props.lexcommon import lex_step_obs
+from props.inclcommon import push_obs, pop_obs
+from runner import Ob
 
 NEEDS_LEXER = True
 FUNCS = ["every rule action of lexer.l (line counting)", "qput", "qend", "qstr", "cfg_parse_internal (every goto error / cfg_error site, states 0-15)", "cfg_error", "cfg_setopt (diagnostics)",
@@ -12,6 +14,10 @@ def build_obs(tier, tables):
     obs = lex_step_obs(tables, ["CHK_C06"], tier, "c06lex", windows=[4] if tier == "quick" else [4, 6], checks="none",
                        variants=("null", "fill2", "fill5"))
     obs += parse_step_obs(["CHK_C06", "CHK_C01"], "c06par", states=range(0, 16), callbacks=True, tier=tier)
+    # per included file: name and line of the includer are saved, counting restarts at 1, both are restored
+    obs += push_obs("c06") + [o for o in pop_obs("c06") if "own" in o.key]
+    # every parse starts at line 1
+    obs.append(Ob("c06-parse-starts-at-line-1", "alloc_step.c", ["-DMODE=14", "-DFAIL_AT=-1"], unwind=8, checks="none", must_reach=("end of harness",)))
     return obs
 
 
